@@ -200,9 +200,25 @@ def build_groups(ck, good, scratch, flags, byname):
     for rnd in range(8):
         if not pending:
             break
-        preps = [(prepare_units(us, "%s_r%d" % (g, rnd), scratch), g, extra) for g, us, extra in pending]
+        preps, again = [], []
+        for g, us, extra in pending:
+            try:
+                preps.append((prepare_units(us, "%s_r%d" % (g, rnd), scratch), g, extra))
+            except Exception:
+                import c14_exo
+                c14_exo.exo_compilable(us)        # marks the units exo itself cannot compile
+                for u in us:
+                    if "error" in u:
+                        ck.violation("x86:%s:exo-fails" % u["instr"],
+                                     {"instr": u["instr"], "variant": u["variant"], "procedure": u["src"],
+                                      "error": u["error"], "detail": u.get("detail", "")[-1500:]},
+                                     "exo cannot compile a procedure calling %s: %s" % (u["instr"], u["error"]))
+                        failed[u["name"]] = "exo: " + u["error"]
+                rest = [u for u in us if "error" not in u]
+                if rest and len(rest) < len(us):
+                    again.append((g, rest, extra))
         results = RUN.pool_map(lambda p: RUN.compile_c(p[0]["files"], p[0]["exe"], flags + p[2]), preps, workers=8)
-        pending = []
+        pending = again
         for (prep, g, extra), (ok, log) in zip(preps, results):
             us = prep["us"]
             if ok:
@@ -266,7 +282,7 @@ def run_instrs(ck, flags, instrs, driver, scratch, variants):
     good = []
     for u in units:
         if "error" in u:
-            ck.violation("x86:%s:exo-fails:%s" % (u["instr"], u["variant"]),
+            ck.violation("x86:%s:exo-fails" % u["instr"],
                          {"instr": u["instr"], "variant": u["variant"], "procedure": u["src"], "error": u["error"],
                           "detail": u.get("detail", "")[-1500:]},
                          "exo cannot build/compile a procedure calling %s: %s" % (u["instr"], u["error"]))
@@ -281,6 +297,8 @@ def run_instrs(ck, flags, instrs, driver, scratch, variants):
     jobs, meta = [], []
     for u in good:
         I = byname[u["instr"]]
+        if u["name"] in failed and failed[u["name"]].startswith("exo: "):
+            continue
         if u["name"] in failed:
             log = failed[u["name"]]
             errs = [l.strip() for l in log.splitlines() if " error: " in l and "ld returned" not in l][:3]
